@@ -40,6 +40,15 @@ CLAIMED["C15"] = dict(
     text="Theorems (closed): pname_by_name, pname_eval, non_pname_by_value, pname_only_tdm_ptype, pnames_not_params. Generated tdm scripts are loaded by model and implementation (arguments are names, variables hold the arrays, p-names are not parameters) and the implementation's dump is re-loaded and compared exactly.",
     note=LOADER_NOTE + " The serialiser itself is not yet modelled in Coq; the round-trip clause is checked on the implementation (and through the model loader) only.", ref="5 C15")
 
+CLAIMED["C10"] = dict(
+    technique="Coq proof of the two oracles (grammar membership incl. left-recursion elimination; exact viable-prefix decision) on the regenerated grammar + differential fault enumeration (token edits) against load/loads",
+    text="Theorems (closed): recognise_correct_lr (membership in the language of blackbird.g4 as written, for every token sequence), pg_lr_equiv (loop form = left-recursive rule), viable_prefix_pg (a token sequence is a prefix of a sentence iff the executable check says so; every rule productive), lex_spec (token positions). For every generated string (grammatical bases, all single-token deletions/insertions/substitutions/swaps/truncations, soups) the implementation must pass the syntax stage iff the oracle says sentence, raise BlackbirdSyntaxError otherwise, and report a token position not before the first non-viable token.",
+    note="Trusted: Coq kernel; T1 (regroups the alternatives of `expression` into prim|pre E|E bin E); extraction + driver; the ANTLR error strategy/ALL(*) prediction and error.py are exercised, not modelled.", ref="5 C10")
+CLAIMED["C16"] = dict(
+    technique="Coq proof (executable edge construction mirroring to_DiGraph = Consec relation; acyclicity, reachability = wire chains, topological orders keep wire order) + differential correspondence with networkx graphs",
+    text="Theorems (closed): edges_char, nodes_char, edges_forward_exec, acyclic_exec, reach_exec_iff_chain, topo_keeps_wire_order_exec — for every operation list of any length over any wires. The implementation's DiGraph (node set, node attributes, edge set) is compared with the extracted model on generated programs, and the four graph axioms are checked directly on the networkx object.",
+    note="Trusted: Coq kernel; extraction + driver; harness; networkx; registers of transforms are read from the implementation's RegRefTransform objects.", ref="5 C16")
+
 NOT_YET = {
 }
 
